@@ -574,9 +574,10 @@ def cmdHSet (c : Ctx) (db : Db) (k : Bytes) (fvs : List (Bytes × Bytes)) (nx : 
     R.ok (db.put k (.hash h) none) (if replyOk then vOK else vInt added)
   | .ok (some (e, old)) =>
     let (h, added) := hsetAll nx fvs old 0
-    -- every field that is stored (not skipped by NX) marks the database dirty, changed or not
+    -- every field that is stored (not skipped by NX) counts as a modification (Redis signals HSET
+    -- unconditionally): dirty and a new version, changed or not
     let stored := if nx then added > 0 else !fvs.isEmpty
-    let db' := if h == old then (if stored then db.setDirty else db) else upd c db k e (.hash h)
+    let db' := if stored then upd c db k e (.hash h) else db
     R.ok db' (if replyOk then vOK else vInt added)
 
 def cmdHGet (c : Ctx) (db : Db) (k f : Bytes) : R :=
